@@ -1164,6 +1164,8 @@ func TestVerif_C16(t *testing.T) {
 		c14HistBoxes(t, dir, c14ProtoA, rounds),
 		c14HistAssets(t, dir, c14ProtoB, rounds),
 		c14HistAccounts(t, dir, c14ProtoA, rounds),
+		// legacy file format (CatchpointFileVersionV7): faithful restore + continuation only
+		c14HistAccountsNamed(t, dir, "accountsV7", c14ProtoC, rounds),
 	}
 	if ve.Thorough() {
 		hs = append(hs, c14HistApps(t, dir, c14ProtoA, rounds), c14HistMixed(t, dir, "mixedA", c14ProtoA, func() c14Variant { v := c14DefaultVariant(); v.Rounds = rounds; return v }()))
@@ -1231,6 +1233,10 @@ func TestVerif_C16(t *testing.T) {
 				t.Fatalf("harness: reference run: %v", err)
 			}
 			onlineFrom := cp.SubSaturate(basics.Round(proto.CatchpointLookback)) + 1
+			if !proto.EnableCatchpointsWithOnlineAccounts {
+				// a legacy file carries no online history: the restored ledger answers from the catchpoint round on
+				onlineFrom = cp
+			}
 			want, err := c16Answers(ref.l, u, cp, proto, onlineFrom)
 			ref.close()
 			if err != nil {
@@ -1302,7 +1308,7 @@ func TestVerif_C16(t *testing.T) {
 			}
 			rn.close()
 
-			mutate := ve.Thorough() || ci == len(cpRounds)-1
+			mutate := (ve.Thorough() || ci == len(cpRounds)-1) && proto.EnableCatchpointsWithOnlineAccounts
 			if mutate {
 				f, err := c14Decode(secs)
 				if err != nil {
